@@ -383,6 +383,8 @@ def _cases_render(tier, seed):
         def_variants = [([], None), ([[v0, "x0"]], None), ([[v0, "x0"], [v1, "x1"]], None), ([[v1, "x1"], [v0, "x0"]], v0), ([[v1, "x1"], [v0, "x0"]], None)]
         for sing in _parts(2, pieces_b, 2):
             for plur in _parts(2, pieces_b, 2):
+                if len(sing) + len(plur) > 3 and not thorough:
+                    continue
                 has_nl = any(p == ["t", "\n"] for p in sing + plur)
                 for defs, parg in def_variants:
                     for count in (1, 2):
@@ -406,7 +408,7 @@ def _cases_render(tier, seed):
                    "singular": parts, "plural": None, "pluralize_arg": None, "newstyle": ns, "autoescape": ae, "install": "callables", "babel": False}
 
 
-RENDER_BOUND = ("trans blocks of up to 3 parts (pluralized: up to 2 + 2 parts) over the text pieces {a, %, %%, {, <, newline} and "
+RENDER_BOUND = ("trans blocks of up to 3 parts (pluralized: up to 3 parts in both forms together over {a, %, <, newline}; thorough tier: 2 + 2 parts over all pieces) over the text pieces {a, %, %%, {, <, newline} and "
                 "references to up to 2 variables (named v0/v1 or num/context), variables bound in the tag / free / partly bound, "
                 "with and without a context string, pluralize with and without an argument, counts 1 and 2, trimmed / notrimmed / "
                 "policy ext.i18n.trimmed, old- and new-style gettext, autoescape on and off, identity translations installed through "
